@@ -125,6 +125,11 @@ impl SignatureContext<'_> {
             return Some(self.v4_check_header_auth().await);
         }
 
+        // a repeated `authorization` header is neither a signature nor an anonymous request
+        if self.hs.get_all(crate::header::AUTHORIZATION).next().is_some() {
+            return Some(Err(invalid_request!("duplicate header: authorization")));
+        }
+
         None
     }
 
